@@ -5,7 +5,7 @@ CONSTANTS
   QN = 2
   QIndirect = FALSE
   QEventIdx = TRUE
-  MaxBufs = 2
+  MaxBufs = 1
   WithNotify = TRUE
   Bug = "none"
 INVARIANTS
